@@ -331,6 +331,16 @@ def units():
         LemmaUnit("lemma:L-MAP", lemma_map),
         LemmaUnit("lemma:L-APP", lemma_app),
     ]
+    # A-ID (conditions and bounds come back as equal expressions; dispatch by node class) is stated for mappers that override
+    # only the tree-node methods under contract: a further method (say, one that rewrites guard expressions) is outside it
+    from pyvc.contracts import ClassShapeUnit
+    D = "dagrt/codegen/dag_ast.py"
+    us += [ClassShapeUnit(D, "ASTIdentityMapper", {"map_IfThenElse", "map_IfThen", "map_ForLoop", "map_Block", "map_NullASTNode",
+                                                  "map_StatementWrapper"}, ["IdentityMapper"], "A-ID"),
+           ClassShapeUnit(D, "ASTPreSimplifyMapper", {"map_IfThen"}, ["ASTIdentityMapper"], "A-ID"),
+           ClassShapeUnit(D, "ASTSimplifyMapper", {"map_IfThenElse", "map_Block"}, ["ASTIdentityMapper"], "A-ID"),
+           ClassShapeUnit(D, "ASTPostSimplifyMapper", {"__call__", "map_IfThenElse", "map_Block", "map_ForLoop",
+                                                      "map_StatementWrapper"}, ["ASTIdentityMapper"], "A-ID")]
     return us
 
 
